@@ -142,18 +142,40 @@ func VH_C15_step(k int, bs int, op int) {
 			vhSameFresh(c, marks, vhFreshOf(cmds, marks), "blocked-get-loses-no-fresh-command")
 		}
 	default:
-		vassume(!token)
+		// Get with an already cancelled context, with or without a pending ready token. With a
+		// token both select cases are ready: the engine takes the first ready case in source order
+		// (the token); the other choice returns at once without reading the token, which is the
+		// token-less path of this same operation. Either way the call must not block, must lose
+		// nothing, and must leave the wake-up invariant intact for the next Get.
 		ctx, cancel := context.WithCancel(context.Background())
 		cancel()
 		var batch *Batch
 		var err error
 		blocked := vblocked(func() { batch, err = c.Get(ctx) })
-		vassert(!blocked && err != nil && batch == nil, "cancelled-get-returns-the-context-error")
-		vhSameFresh(c, marks, vhFreshOf(cmds, marks), "cancelled-get-loses-no-fresh-command")
+		vassert(!blocked, "cancelled-get-does-not-block")
+		if err != nil || batch == nil {
+			vassert(err != nil && batch == nil, "cancelled-get-returns-the-context-error")
+			vhSameFresh(c, marks, vhFreshOf(cmds, marks), "cancelled-get-loses-no-fresh-command")
+		} else {
+			vcover("cancelled-get-took-the-token")
+			vassert(token && vhFreshCount(cmds, marks) >= bs, "cancelled-get-hands-out-a-batch-only-when-one-is-ready")
+			vassert(len(batch.Commands) == bs, "batch-is-full-sized")
+			j := 0
+			last := -1
+			for i, cmd := range cmds {
+				if j < bs && vhFresh(cmd, marks) {
+					if j < len(batch.Commands) {
+						vassert(batch.Commands[j] == cmd, "batch-is-oldest-fresh-commands-in-order")
+					}
+					j++
+					last = i
+				}
+			}
+			vhSameFresh(c, marks, vhFreshOf(cmds[last+1:], marks), "handed-out-commands-leave-later-fresh-commands-stay-in-order")
+			cmds = cmds[last+1:]
+		}
 	}
-	// the wake-up invariant is preserved
-	if op != 3 {
-		vassert(vhFreshCount(cmds, marks) < bs || vhHasToken(c), "wake-up-invariant-preserved")
-	}
+	// the wake-up invariant is preserved (also by a Get that gave up)
+	vassert(vhFreshCount(cmds, marks) < bs || vhHasToken(c), "wake-up-invariant-preserved")
 	vobserve("cache", uint64(len(c.cache)))
 }
